@@ -127,6 +127,10 @@ registry! {
     #[cfg(feature = "auto-collect")]
     h_policy::h_policy_adjust_mid,
     #[cfg(feature = "auto-collect")]
+    h_policy::h_policy_adjust_hi1,
+    #[cfg(feature = "auto-collect")]
+    h_policy::h_policy_adjust_hi2,
+    #[cfg(feature = "auto-collect")]
     h_policy::h_policy_wiring,
     #[cfg(feature = "auto-collect")]
     h_policy::h_policy_wiring4,
